@@ -1,5 +1,6 @@
 (* Scratch: round-trip theorem (C05/C09-parens shape) on the faithful model, operators over bare terms, field:value, comparisons, ranges and field:(expression) incl. value lists *)
 Require Import Parser ParserShape ParserLay.
+Require Export Printer.
 From Coq Require Import List String ZArith Bool Lia Arith.
 Import ListNotations.
 Close Scope string_scope.
@@ -13,6 +14,8 @@ Arguments to_positive_float : simpl never.
 
 Section RT.
 Variable o : oracle.
+Notation wfq := (Printer.wfq o).
+Notation want := (Printer.want o).
 
 Notation step := (step o ""%string).
 Fixpoint steps (k : nat) (c : cfg) : res :=
@@ -28,10 +31,8 @@ Lemma reach_step a b c : step a = Next b -> reach b c -> reach a c.
 Proof. intros H [k Hk]. exists (S k). simpl. now rewrite H. Qed.
 
 Definition mk r n t := {| rs := r; ns := n; toks := t; pend := None |}.
-Definition tk (t : toktype) := {| typ := t; val := ""%string |}.
-
 (* spec-level constructors come from ParserLay (mk2, mk1, mk_fuzzy, mk_boost, eqx, cmpx, rangex, inx) *)
-Notation mk2 := ParserLay.mk2. Notation mk1 := ParserLay.mk1. Notation mk_fuzzy := ParserLay.mk_fuzzy. Notation mk_boost := ParserLay.mk_boost.
+Notation mk2 := Build.mk2. Notation mk1 := Build.mk1. Notation mk_fuzzy := Build.mk_fuzzy. Notation mk_boost := Build.mk_boost.
 Lemma expr_new_bin op l r : (op = And \/ op = Or) -> expr_new (VExp l) op [VExp r] = Ret (mk2 op l r).
 Proof. apply ParserShape.expr_new_bin. Qed.
 Lemma expr_new_un op l : (op = Not \/ op = Must \/ op = MustNot) -> expr_new (VExp l) op [] = Ret (mk1 op l).
@@ -80,14 +81,14 @@ Proof. intros H. cbn. rewrite H. cbn. rewrite expr_new_boost. reflexivity. Qed.
 
 
 (* ---- atoms: fielded leaves ---- *)
-Lemma chained_leaf e : ParserShape.is_leaf e = true ->
+Lemma chained_leaf e : Shape.is_leaf e = true ->
   forall lits ok, chained_or_literals ""%string e = (lits, ok) -> (ok && (1 <? List.length lits)) = false.
 Proof.
   intros Hl lits ok H. destruct e as [l op r b f]. destruct op, l, r; cbn in Hl; try discriminate; cbn in H; inversion H; subst; reflexivity.
 Qed.
 
-Lemma reduce_eq lf lv ct r t0 n : (is TEqual ct || is TColon ct) = true -> ParserShape.is_leaf lv = true ->
-  reduce_loop o (IExp lv :: ITok ct :: IExp lf :: r) [] (t0 :: n) ""%string = ROk (IExp (ParserLay.eqx lf lv) :: r) n.
+Lemma reduce_eq lf lv ct r t0 n : (is TEqual ct || is TColon ct) = true -> Shape.is_leaf lv = true ->
+  reduce_loop o (IExp lv :: ITok ct :: IExp lf :: r) [] (t0 :: n) ""%string = ROk (IExp (Build.eqx lf lv) :: r) n.
 Proof.
   intros Ht Hl. cbn [reduce_loop].
   assert (E1 : try_reducers (reducers o) [IExp lv] (t0 :: n) ""%string = None) by reflexivity. rewrite E1.
@@ -95,7 +96,7 @@ Proof.
   { destruct ct as [ty v]. destruct ty; cbn in Ht; try discriminate; reflexivity. }
   rewrite E2.
   assert (E3 : try_reducers (reducers o) [IExp lf; ITok ct; IExp lv] (t0 :: n) ""%string =
-               Some (Ret ([IExp (ParserLay.eqx lf lv)], n))).
+               Some (Ret ([IExp (Build.eqx lf lv)], n))).
   { unfold reducers. cbn [try_reducers].
     assert (A1 : r_and_or TAnd And [IExp lf; ITok ct; IExp lv] (t0 :: n) ""%string = None).
     { destruct ct as [ty v]. destruct ty; cbn in Ht; try discriminate; reflexivity. }
@@ -107,12 +108,9 @@ Proof.
   rewrite E3. reflexivity.
 Qed.
 
-Definition cmp_op (cmp : token) (withEq : bool) : operator :=
-  if is TGreater cmp then (if withEq then GreaterEq else Greater) else (if withEq then LessEq else Less).
-
 Lemma reduce_cmp lf lv ct cmp r t0 t1 n : is TColon ct = true -> (is TGreater cmp || is TLess cmp) = true ->
   reduce_loop o (IExp lv :: ITok cmp :: ITok ct :: IExp lf :: r) [] (t0 :: t1 :: n) ""%string =
-  ROk (IExp (ParserLay.cmpx (cmp_op cmp false) lf lv) :: r) n.
+  ROk (IExp (Build.cmpx (cmp_op cmp false) lf lv) :: r) n.
 Proof.
   intros Hc Hm. cbn [reduce_loop].
   assert (E1 : try_reducers (reducers o) [IExp lv] (t0 :: t1 :: n) ""%string = None) by reflexivity. rewrite E1.
@@ -123,7 +121,7 @@ Proof.
   { destruct cmp as [ty v]. destruct ty; cbn in Hm; try discriminate; destruct ct as [ty2 v2]; destruct ty2; cbn in Hc; try discriminate; reflexivity. }
   rewrite E3.
   assert (E4 : try_reducers (reducers o) [IExp lf; ITok ct; ITok cmp; IExp lv] (t0 :: t1 :: n) ""%string =
-               Some (Ret ([IExp (ParserLay.cmpx (cmp_op cmp false) lf lv)], n))).
+               Some (Ret ([IExp (Build.cmpx (cmp_op cmp false) lf lv)], n))).
   { unfold reducers. cbn [try_reducers].
     assert (A1 : r_and_or TAnd And [IExp lf; ITok ct; ITok cmp; IExp lv] (t0 :: t1 :: n) ""%string = None) by reflexivity.
     assert (A2 : r_and_or TOr Or [IExp lf; ITok ct; ITok cmp; IExp lv] (t0 :: t1 :: n) ""%string = None) by reflexivity.
@@ -135,7 +133,7 @@ Qed.
 
 Lemma reduce_cmp_eq lf lv ct cmp eq r t0 t1 t2 n : is TColon ct = true -> (is TGreater cmp || is TLess cmp) = true -> is TEqual eq = true ->
   reduce_loop o (IExp lv :: ITok eq :: ITok cmp :: ITok ct :: IExp lf :: r) [] (t0 :: t1 :: t2 :: n) ""%string =
-  ROk (IExp (ParserLay.cmpx (cmp_op cmp true) lf lv) :: r) n.
+  ROk (IExp (Build.cmpx (cmp_op cmp true) lf lv) :: r) n.
 Proof.
   intros Hc Hm He. cbn [reduce_loop].
   assert (E1 : try_reducers (reducers o) [IExp lv] (t0 :: t1 :: t2 :: n) ""%string = None) by reflexivity. rewrite E1.
@@ -149,7 +147,7 @@ Proof.
   { destruct eq as [ty v]. destruct ty; cbn in He; try discriminate; reflexivity. }
   rewrite E4.
   assert (E5 : try_reducers (reducers o) [IExp lf; ITok ct; ITok cmp; ITok eq; IExp lv] (t0 :: t1 :: t2 :: n) ""%string =
-               Some (Ret ([IExp (ParserLay.cmpx (cmp_op cmp true) lf lv)], n))).
+               Some (Ret ([IExp (Build.cmpx (cmp_op cmp true) lf lv)], n))).
   { unfold reducers. cbn [try_reducers].
     assert (A1 : r_and_or TAnd And [IExp lf; ITok ct; ITok cmp; ITok eq; IExp lv] (t0 :: t1 :: t2 :: n) ""%string = None) by reflexivity.
     assert (A2 : r_and_or TOr Or [IExp lf; ITok ct; ITok cmp; ITok eq; IExp lv] (t0 :: t1 :: t2 :: n) ""%string = None) by reflexivity.
@@ -163,7 +161,7 @@ Qed.
 Lemma reduce_range lf lo hi ct op to cl r t0 t1 t2 t3 n :
   is TColon ct = true -> (is TLSquare op || is TLCurly op) = true -> (is TRSquare cl || is TRCurly cl) = true -> is TTO to = true ->
   reduce_loop o (ITok cl :: IExp hi :: ITok to :: IExp lo :: ITok op :: ITok ct :: IExp lf :: r) [] (t0 :: t1 :: t2 :: t3 :: n) ""%string =
-  ROk (IExp (ParserLay.rangex lf lo hi (is TLSquare op && is TRSquare cl)) :: r) n.
+  ROk (IExp (Build.rangex lf lo hi (is TLSquare op && is TRSquare cl)) :: r) n.
 Proof.
   intros Hc Ho Hcl Hto.
   destruct cl as [clt clv]; destruct clt; cbn in Hcl; try discriminate;
@@ -172,11 +170,6 @@ Proof.
   destruct ct as [ctt ctv]; destruct ctt; cbn in Hc; try discriminate;
   cbn; rewrite ParserShape.expr_new_range; reflexivity.
 Qed.
-
-(* what the `equal` reducer builds from a field and an arbitrary value expression *)
-Definition fe_node (f v : expr) : expr :=
-  let '(lits, ok) := chained_or_literals ""%string v in
-  if ok && (1 <? List.length lits) then ParserLay.inx f lits else ParserLay.eqx f v.
 
 Lemma reduce_eq_gen lf lv ct r t0 n : (is TEqual ct || is TColon ct) = true ->
   reduce_loop o (IExp lv :: ITok ct :: IExp lf :: r) [] (t0 :: n) ""%string = ROk (IExp (fe_node lf lv) :: r) n.
@@ -202,97 +195,6 @@ Qed.
 
 Arguments reduce_loop : simpl never.
 
-(* ---- spec trees ---- *)
-Inductive qt :=
-| QTerm (t : token)
-| QFv (f ct v : token)
-| QCmp (f ct cmp : token) (eq : option token) (v : token)
-| QRange (f ct op lo to hi cl : token)
-| QFe (f ct : token) (a : qt)
-| QAnd (a b : qt) | QOr (a b : qt)
-| QNot (a : qt) | QMust (a : qt) | QMustNot (a : qt)
-| QBoost (a : qt) (n : option token) | QFuzzy (a : qt) (n : option token)
-| QPar (a : qt).
-
-Definition lvl (t : qt) : nat :=
-  match t with
-  | QOr _ _ => 1 | QAnd _ _ => 2 | QNot _ => 3 | QBoost _ _ => 4 | QFuzzy _ _ => 5 | QMustNot _ => 6 | QMust _ => 7
-  | _ => 8 end.
-
-Definition is_term_tok (t : token) : bool := match typ t with TLiteral | TQuoted | TRegexp => true | _ => false end.
-
-(* may t follow the context token c without parentheses *)
-Definition ctx_tok (c : toktype) : bool :=
-  match c with TStart | TLParen | TOr | TAnd | TNot | TMinus | TPlus => true | _ => false end.
-Definition clvl (c : toktype) : nat := match c with TOr => 1 | TAnd => 2 | TNot => 3 | TMinus => 6 | TPlus => 7 | _ => 0 end.
-Definition fits (c : toktype) (t : qt) : bool :=
-  ctx_tok c && ((clvl c <? lvl t) || (is_prefix_op c && (lvl t =? clvl c))).
-
-Fixpoint wfq (t : qt) : Prop :=
-  match t with
-  | QTerm tok => is_term_tok tok = true
-  | QFv f ct v => is_term_tok f = true /\ is_term_tok v = true /\ is TColon ct = true
-  | QCmp f ct cmp eq v => is_term_tok f = true /\ is_term_tok v = true /\ is TColon ct = true /\ (is TGreater cmp || is TLess cmp) = true /\
-      match eq with None => True | Some e => is TEqual e = true end
-  | QRange f ct op lo to hi cl => is_term_tok f = true /\ is_term_tok lo = true /\ is_term_tok hi = true /\ is TColon ct = true /\
-      (is TLSquare op || is TLCurly op) = true /\ (is TRSquare cl || is TRCurly cl) = true /\ is TTO to = true
-  | QFe f ct a => is_term_tok f = true /\ is TColon ct = true /\ wfq a
-  | QAnd a b => wfq a /\ wfq b /\ 2 <= lvl a /\ fits TAnd b = true
-  | QOr a b => wfq a /\ wfq b /\ 1 <= lvl a /\ fits TOr b = true
-  | QNot a => wfq a /\ fits TNot a = true
-  | QMust a => wfq a /\ fits TPlus a = true
-  | QMustNot a => wfq a /\ fits TMinus a = true
-  | QBoost a n => wfq a /\ 4 <= lvl a /\
-      match n with None => True | Some tok => is_term_tok tok = true /\ exists f, to_positive_float o (parse_literal o tok) = Some f end
-  | QFuzzy a n => wfq a /\ 5 <= lvl a /\
-      match n with None => True | Some tok => is_term_tok tok = true /\
-         exists d, e_left (parse_literal o tok) = VInt d /\ e_op (parse_literal o tok) = Literal end
-  | QPar a => wfq a
-  end.
-
-Fixpoint pr (t : qt) : list token :=
-  match t with
-  | QTerm tok => [tok]
-  | QFv f ct v => [f; ct; v]
-  | QCmp f ct cmp None v => [f; ct; cmp; v]
-  | QCmp f ct cmp (Some e) v => [f; ct; cmp; e; v]
-  | QRange f ct op lo to hi cl => [f; ct; op; lo; to; hi; cl]
-  | QFe f ct a => f :: ct :: tk TLParen :: pr a ++ [tk TRParen]
-  | QAnd a b => pr a ++ tk TAnd :: pr b
-  | QOr a b => pr a ++ tk TOr :: pr b
-  | QNot a => tk TNot :: pr a
-  | QMust a => tk TPlus :: pr a
-  | QMustNot a => tk TMinus :: pr a
-  | QBoost a n => pr a ++ tk TCarrot :: match n with Some tok => [tok] | None => [] end
-  | QFuzzy a n => pr a ++ tk TTilde :: match n with Some tok => [tok] | None => [] end
-  | QPar a => tk TLParen :: pr a ++ [tk TRParen]
-  end.
-
-Fixpoint want (t : qt) : expr :=
-  match t with
-  | QTerm tok => parse_literal o tok
-  | QFv f ct v => ParserLay.eqx (parse_literal o f) (parse_literal o v)
-  | QCmp f ct cmp eq v => ParserLay.cmpx (cmp_op cmp (match eq with Some _ => true | None => false end)) (parse_literal o f) (parse_literal o v)
-  | QRange f ct op lo to hi cl => ParserLay.rangex (parse_literal o f) (parse_literal o lo) (parse_literal o hi) (is TLSquare op && is TRSquare cl)
-  | QFe f ct a => fe_node (parse_literal o f) (want a)
-  | QAnd a b => mk2 And (want a) (want b)
-  | QOr a b => mk2 Or (want a) (want b)
-  | QNot a => mk1 Not (want a)
-  | QMust a => mk1 Must (want a)
-  | QMustNot a => mk1 MustNot (want a)
-  | QBoost a None => mk_boost (want a) one_bits
-  | QBoost a (Some tok) => mk_boost (want a) match to_positive_float o (parse_literal o tok) with Some f => f | None => one_bits end
-  | QFuzzy a None => mk_fuzzy (want a) 1
-  | QFuzzy a (Some tok) => mk_fuzzy (want a) match e_left (parse_literal o tok) with VInt d => d | _ => 1%Z end
-  | QPar a => want a
-  end.
-
-(* lookahead tokens that end an operand, with the level below which everything pending must reduce *)
-Definition closing (nx : toktype) : bool := match nx with TEOF | TRParen | TOr | TAnd | TCarrot | TTilde => true | _ => false end.
-Definition nlvl (nx : toktype) : nat := match nx with TOr => 1 | TAnd => 2 | TCarrot => 4 | TTilde => 5 | _ => 0 end.
-Definition closes (nx : toktype) (t : qt) : bool := closing nx && (nlvl nx <=? lvl t).
-
-Definition top_not_exp (r : list item) : Prop := match r with IExp _ :: _ => False | _ => True end.
 Arguments fits : simpl never.
 Arguments closes : simpl never.
 
@@ -556,7 +458,7 @@ Qed.
 
 Theorem list_tree f ct v vs :
   is_plain (parse_literal o v) = true -> forallb is_plain (map (parse_literal o) vs) = true -> vs <> [] ->
-  want (QFe f ct (qchain v vs)) = ParserLay.inx (parse_literal o f) (parse_literal o v :: map (parse_literal o) vs).
+  want (QFe f ct (qchain v vs)) = Build.inx (parse_literal o f) (parse_literal o v :: map (parse_literal o) vs).
 Proof.
   intros Hv Hvs Hne. cbn [want]. unfold qchain. rewrite want_qchain. cbn [want]. unfold fe_node.
   rewrite (chained_chain _ _ Hv Hvs). cbn [andb List.length]. rewrite map_length.
